@@ -304,6 +304,39 @@ def w_support(task):
     return acc
 
 
+def w_repair_orders(task):
+    """the repair entry point itself, on the block in on-air order and in the order deinterleave_all_bits() returns (deinterleaved=True)"""
+    msg, lo, hi = task
+    acc = Acc()
+    cw = bitarray(ref_encode(msg))
+    for idx in range(lo, hi):
+        pat = PATTERNS[idx]
+        case = {"message": msg, "flipped": list(pat)}
+        try:
+            x = cw.copy()
+            for p_ in pat:
+                x.invert(p_)
+            snap = x.copy()
+            a = BPTC19696.repair_if_necessary(x)
+            if x != snap:
+                acc.violation("repair_alters_the_callers_on_air_block", case)
+            dx = BPTC19696.deinterleave_all_bits(snap)
+            b = BPTC19696.repair_if_necessary(bitarray(dx), deinterleaved=True)
+            if len(pat) == 0:
+                if a != cw:
+                    acc.violation("errorfree_codeword_altered_by_repair", {**case, "changed_bits": (a ^ cw).count()})
+                if b != dx:
+                    acc.violation("errorfree_deinterleaved_codeword_altered_by_repair", {**case, "changed_bits": (b ^ dx).count()},
+                                  "repair_if_necessary(deinterleave_all_bits(codeword), deinterleaved=True) changes an error-free codeword")
+            if b != BPTC19696.deinterleave_all_bits(a):
+                acc.violation("repair_of_deinterleaved_block_differs_from_repair_of_on_air_block", {**case, "differing_bits": (b ^ BPTC19696.deinterleave_all_bits(a)).count()},
+                              "the two documented forms of the same repair disagree on the same received block")
+        except Exception as e:  # noqa: BLE001
+            acc.violation("exception_repair:" + exc_sig(e), case, repr(e))
+        acc.case(nontrivial=True, calls=4, outcome=pattern_class(pat), sample=case if idx == lo + 1 else None)
+    return acc
+
+
 def w_history(task):
     pol, v, pm, probes = task
     acc = Acc()
@@ -511,6 +544,19 @@ def run(only=None):
             s.case(nontrivial=True, calls=6, outcome="ok", sample=case if len(s.samples) < 1 else None)
         s.done()
 
+
+    if want("repair_entry_point_both_orders"):
+        s = rep.sub("repair_entry_point_both_orders",
+                    "repair_if_necessary() called directly, on the on-air block and on deinterleave_all_bits(block) with deinterleaved=True: "
+                    "all 19307 patterns of weight <= 2 x base words: an error-free codeword comes back unaltered in both orders, "
+                    "and both orders give the same repaired block for every pattern")
+        words = [env.det_bits("c02-repair-order", K)] + (["1" * K, spaces.unit(K, 5)] if rep.thorough() else [])
+        tasks = [(w_, lo, hi) for w_ in words for lo, hi in par.chunks(len(PATTERNS), nw * 2)]
+        s.declared = len(words) * len(PATTERNS)
+        for acc in par.pmap(w_repair_orders, tasks, nw):
+            s.merge(acc)
+        s.done()
+
     if want("history_pollution"):
         # histories: a decode-with-repair of a damaged block (errors in every class of position, incl. the reserved bits) directly
         # followed by the obligations on an unrelated message -- shared scratch buffers / cached tables leak through here
@@ -534,8 +580,7 @@ def run(only=None):
         "base_words": f"{len(BASES)} (0, 1..1" + (", 96 unit messages" if rep.thorough() else "") + ", seed-chosen)",
         "errorfree_messages": "weight <= " + ("3" if rep.thorough() else "2") + " and complements of weight <= 2",
         "not_covered": "messages of weight 4..92 other than the seed-chosen ones (reduction: encoder linearity to order 2, "
-                       "decoder translation invariance on every base word); error patterns of weight >= 3 (outside the statement); "
-                       "repair_if_necessary(deinterleaved=True) (no caller, not named by the statement)",
+                       "decoder translation invariance on every base word); error patterns of weight >= 3 (outside the statement)",
     }
     return rep.finish()
 
